@@ -164,7 +164,7 @@ Proof.
     apply ret_ok in H as [H _]. injection H as <- <-. split; [now apply N.ltb_lt|reflexivity].
   - (* TU128 *) intros bs m v r m' H _. cbn [decode] in H. apply tick_seq_ok in H. apply tick_seq_ok in H.
     apply bind_ok in H as ([x r1] & m1 & R & H). apply lift_ok in R as [R _].
-    apply take_spec in R as [-> L]. rewrite le_val_split8 in H by exact L.
+    rewrite read_exact_take in R. apply take_spec in R as [-> L]. rewrite le_val_split8 in H by exact L.
     apply ret_ok in H as [H _]. injection H as <- <-.
     cbn [has_type spec_encode]. split.
     + apply N.ltb_lt. pose proof (le_val_lt x) as U. rewrite L in U. exact U.
